@@ -4,7 +4,7 @@
   Strings and byte strings travel as `Wire.enc` (hex code points joined by '.', '-' = empty), `~` = None.
   A document in prefix form:
     D <id> <mimetype> <hasSettings 0|1> <npics> {<href> <F|I> <filename|bytes> <mediatype>}
-      <thumbnail|~> <nextras> {<filename> <mediatype> <bytes|~>} <folder> <nkids> {Doc}
+      <thumbnail|~> <thumbnail media type> <nextras> {<filename> <mediatype> <bytes|~>} <folder> <nkids> {Doc}
   (in a request the pictures are the REGISTRATION sequence; the model applies the dict store)
 
   requests
@@ -71,12 +71,13 @@ partial def pDoc : P Doc := do
   let np ← pNat
   let pics ← pMany pPic np
   let th ← pOptStr
+  let thmt ← pStr
   let ne ← pNat
   let ex ← pMany pExtra ne
   let fo ← pStr
   let nk ← pNat
   let kids ← pMany pDoc nk
-  pure ⟨id, mt, hs == 1, pics.foldl register [], th, ex, fo, kids⟩
+  pure ⟨id, mt, hs == 1, pics.foldl register [], th.map (fun b => ⟨b, thmt⟩), ex, fo, kids⟩
 
 def pOp : P Op := do
   let p ← pNat
@@ -118,7 +119,7 @@ def showExtra (e : Extra) : String :=
 partial def showDoc (d : Doc) : String :=
   String.intercalate " " (
     ["D", toString d.id, Wire.enc d.mimetype, (if d.hasSettings then "1" else "0"), toString d.pictures.length]
-    ++ d.pictures.map showPic ++ [showOpt d.thumbnail, toString d.extras.length] ++ d.extras.map showExtra
+    ++ d.pictures.map showPic ++ [showOpt (d.thumbnail.map (·.content)), Wire.enc ((d.thumbnail.map (·.mediatype)).getD []), toString d.extras.length] ++ d.extras.map showExtra
     ++ [Wire.enc d.folder, toString d.children.length] ++ d.children.map showDoc)
 
 def pHist : P String := do
